@@ -54,6 +54,10 @@ def translate():
     # predict-only branch
     need("labels=self.clusterer.predict(u)" in t and "ModeStatistics.from_particles(u,weights_trimmed,labels,dof_fallback=self.DOF_FALLBACK)" in t,
          fn, "labels = predict(training points)", w)
+    # every assignment to the training labels is the clusterer's prediction for the training points (the same rule the
+    # Resampler applies to the active particles), never the partition remembered by fit()
+    lab_asg = [_ns(n.value) for n in ast.walk(fn) if isinstance(n, ast.Assign) and _ns(n.targets[0]) == "labels"]
+    need(lab_asg and all(v == "self.clusterer.predict(u)" for v in lab_asg), fn, f"training labels assigned from {sorted(set(lab_asg))}", w)
     need("u=self.state.get_history('u',flat=True)[trim_idx]" in t, fn, "training points are the trimmed pool", w)
     # the predict-only branch: reuse the clustering only while it covers the trimmed pool, otherwise refit
     reuse = [n for n in ast.walk(fn) if isinstance(n, ast.If) and not any(_ns(s) == "self.clusterer.fit(u,weights_trimmed)" for s in n.body)
@@ -118,11 +122,15 @@ def hooked_run(run, cfg, seed, what, resume_from=None, n_total=60, outdir=None, 
     def fp(cls, u, weights, labels, *a, **k):
         rec["train_labels"] = np.asarray(labels).copy()
         rec["K_fit"] = s._core.trainer.clusterer.n_clusters_
+        pred = np.asarray(s._core.trainer.clusterer.predict(np.asarray(u)))
+        if pred.shape == np.asarray(labels).shape and np.any(pred != np.asarray(labels)):
+            problems.append(f"iteration {s.state.get_current('iter')}: {int(np.sum(pred != np.asarray(labels)))} training points were used to fit the mode "
+                            f"of a label that is not the cluster the clusterer assigns them to (modes and particle labels follow different rules)")
         return orig_fp(cls, u, weights, labels, *a, **k)
 
+    problems = []
     ModeStatistics.from_particles = classmethod(fp)
     orig_pm = mut.parallel_mcmc
-    problems = []
 
     def pm(*a, **k):
         ms, asg = k["mode_stats"], np.asarray(k["assignments"])
@@ -227,6 +235,76 @@ def tiny_beta_steps(run, tier, rng):
             done += 1
 
 
+def overlapping_and_repeated(run, tier, rng):
+    """Trainer.run (refit) + Resampler.run('mult') on pools with overlapping, unequally weighted modes on a diffuse background, with
+    weights so concentrated that most active particles share a few ancestors: (i) every mode is fitted from exactly the training
+    points the clusterer's predict() assigns to its label, (ii) every active particle carries the label predict() gives its position."""
+    from tempest.state_manager import StateManager
+    from tempest.steps.train import Trainer
+    from tempest.steps.resample import Resampler
+    from tempest.cluster import HierarchicalGaussianMixture
+    from tempest.modes import ModeStatistics
+    from tempest.config import TRIM_ESS, TRIM_BINS, DOF_FALLBACK
+    done, tries = 0, 0
+    while done < (3 if tier == "quick" else 20) and tries < 80:
+        tries += 1
+        lseed = rng.randrange(2 ** 31)
+        nr = np.random.RandomState(lseed)
+        d = rng.choice([2, 3])
+        centres = nr.rand(3, d) * 0.5 + 0.25
+        parts = [c + rng.choice([0.03, 0.06]) * nr.randn(rng.choice([150, 300]), d) for c in centres] + [nr.rand(150, d)]
+        u = np.clip(np.vstack(parts), 0.001, 0.999)
+        n = len(u)
+        w = nr.gamma(rng.choice([0.3, 1.0]), size=n)
+        w /= w.sum()
+        st = StateManager(d)
+        st.update_current({"u": u, "x": u.copy(), "logl": np.zeros(n), "beta": 0.0, "logz": 0.0, "iter": 1})
+        st.commit_current_to_history()
+        st.set_current("beta", 0.4)
+        st.set_current("iter", 2)
+        cl = HierarchicalGaussianMixture(n_init=1, max_iterations=1000, min_points=None, threshold_modifier=1.0, covariance_type="full",
+                                         verbose=False, normalize=bool(tries % 2))
+        tr = Trainer(state=st, clusterer=cl, cluster_every=1, clustering=True, TRIM_ESS=TRIM_ESS, TRIM_BINS=TRIM_BINS, DOF_FALLBACK=DOF_FALLBACK)
+        rec = {}
+        orig_fp = ModeStatistics.from_particles.__func__
+
+        def fp(cls, uu, ww, ll, *a, **k):
+            rec["u"], rec["labels"] = np.asarray(uu).copy(), np.asarray(ll).copy()
+            return orig_fp(cls, uu, ww, ll, *a, **k)
+        ModeStatistics.from_particles = classmethod(fp)
+        what = dict(probe="overlapping weighted modes, repeated ancestors", layout_seed=lseed, d=d, normalize=bool(tries % 2))
+        try:
+            np.random.seed(lseed % 1000)
+            ms = tr.run(w.copy())
+        except Exception as e:
+            run.fail("train-resample-raises", f"Trainer raised {type(e).__name__}: {e}", **what)
+            continue
+        finally:
+            ModeStatistics.from_particles = classmethod(orig_fp)
+        if ms.K < 2:
+            continue
+        done += 1
+        run.case(key=("overlap", lseed), nontrivial=True)
+        pred = np.asarray(cl.predict(rec["u"]))
+        if np.any(pred != rec["labels"]):
+            run.fail("label-of-another-cluster", f"{int(np.sum(pred != rec['labels']))} of {len(pred)} training points were used to fit the mode of a label "
+                     f"other than the one predict() gives them: the modes are not fitted from the clusters the particles are labelled with", **what)
+            continue
+        # concentrated weights: a handful of ancestors, drawn in random order by the multinomial scheme
+        w2 = np.full(n, 1e-9)
+        heavy = nr.choice(n, size=6, replace=False)
+        w2[heavy] = nr.rand(6) + 0.5
+        w2 /= w2.sum()
+        rs = Resampler(state=st, n_particles=64, resample="mult", clusterer=cl, clustering=True)
+        np.random.seed(lseed % 997)
+        rs.run(w2.copy())
+        asg = np.asarray(st.get_current("assignments"))
+        own = np.asarray(cl.predict(np.asarray(st.get_current("u"))))
+        if asg.shape != own.shape or np.any(asg != own):
+            run.fail("label-of-another-cluster", f"multinomial resampling with {len(set(map(tuple, np.asarray(st.get_current('u')).round(12))))} distinct ancestors "
+                     f"among 64 active particles: {int(np.sum(asg != own)) if asg.shape == own.shape else 'all'} carry a label that is not the cluster of their position", **what)
+
+
 def tiny_beta_probe(run, tier, rng):
     """kernel-entry checks at the smallest positive temperature: every step must treat it as an annealing iteration"""
     for rep in range(1 if tier == "quick" else 4):
@@ -274,7 +352,7 @@ def sweep(run, tier, rng, work):
             continue
         for p in problems[:2]:
             key = "assignment-without-mode" if "refers to no mode" in p else ("label-rank-mismatch" if "indexed by rank" in p else
-                                                                              ("label-of-another-cluster" if "not the cluster" in p else "mode-ill-formed"))
+                                                                              ("label-of-another-cluster" if ("not the cluster" in p or "different rules" in p) else "mode-ill-formed"))
             run.fail(key, p, **what)
         if outdir is not None:
             # resume from a checkpoint taken during annealing
@@ -468,6 +546,7 @@ def main(tier, seed):
         reused_clustering(run, tier, rng)
         tiny_beta_probe(run, tier, rng)
         tiny_beta_steps(run, tier, rng)
+        overlapping_and_repeated(run, tier, rng)
     except Exception:
         import traceback
         run.broken.append(("harness-exception", traceback.format_exc()[-1500:]))
